@@ -716,6 +716,27 @@ def wprintEach : List Q → Option (List (List String))
     | _, _ => none
 end
 
+/-- the attribute name carried by the constant `'name'` of an `(attr v 'name')` node -/
+def attrOfLit (c : String) : Option String :=
+  match c.toList with
+  | 's' :: 't' :: 'r' :: ':' :: '\'' :: rest =>
+    if rest.getLast? == some '\'' then some (String.ofList rest.dropLast) else none
+  | _ => none
+
+def tag1 (ty : String) : Option String := (opOf unSym ty).map ("un:" ++ ·)
+
+def tag2 (ty : String) : Option String :=
+  match opOf binSym ty with
+  | some op => some ("bin:" ++ op)
+  | none => match opOf boolSym ty with
+    | some op => some ("bool:" ++ op)
+    | none => (opOf cmpSym ty).map ("cmp:" ++ ·)
+
+def lamParams : List Q → Option (List String)
+  | [] => some []
+  | .var x :: rest => (lamParams rest).map (x :: ·)
+  | _ :: _ => none
+
 /-- one composite node of the text format, from its type and fields (`TextASTToPythonASTTransformer.composite`) -/
 def composite (ty : String) (fs : List Q) : Option Q :=
   if ty == "list" then some (.node "list" fs)
@@ -723,11 +744,7 @@ def composite (ty : String) (fs : List Q) : Option Q :=
     | [.node "list" ks, .node "list" vs] => some (.node "dict" (ks ++ vs))
     | _ => none
   else if ty == "attr" then match fs with
-    | [v, .lit c] =>
-      match c.toList with
-      | 's' :: 't' :: 'r' :: ':' :: '\'' :: rest =>
-        if rest.getLast? == some '\'' then some (.node ("attr:" ++ String.ofList rest.dropLast) [v]) else none
-      | _ => none
+    | [v, .lit c] => (attrOfLit c).map (fun name => .node ("attr:" ++ name) [v])
     | _ => none
   else if ty == "subscript" then match fs with
     | [v, i] => some (.node "sub" [v, i])
@@ -739,18 +756,11 @@ def composite (ty : String) (fs : List Q) : Option Q :=
     | [c, a, b] => some (.node "if" [c, a, b])
     | _ => none
   else if ty == "lambda" then match fs with
-    | [.node "list" ps, b] =>
-      if ps.all (fun p => match p with | .var _ => true | _ => false)
-      then some (.lam (ps.map (fun p => match p with | .var x => x | _ => "")) b) else none
+    | [.node "list" ps, b] => (lamParams ps).map (fun names => .lam names b)
     | _ => none
   else match fs with
-    | [v] => (opOf unSym ty).map (fun op => .node ("un:" ++ op) [v])
-    | [l, r] =>
-      match opOf binSym ty with
-      | some op => some (.node ("bin:" ++ op) [l, r])
-      | none => match opOf boolSym ty with
-        | some op => some (.node ("bool:" ++ op) [l, r])
-        | none => (opOf cmpSym ty).map (fun op => .node ("cmp:" ++ op) [l, r])
+    | [v] => (tag1 ty).map (fun t => .node t [v])
+    | [l, r] => (tag2 ty).map (fun t => .node t [l, r])
     | _ => none
 
 mutual
